@@ -1,6 +1,6 @@
 (* Proofs for Props/C07.v (model: Model/FlowSend.v).  Axiom-free. *)
-From Coq Require Import ZArith List Bool Lia ZifyBool PeanoNat.
-From GV Require Import Model.FlowSend.
+From Coq Require Import String ZArith List Bool Lia ZifyBool PeanoNat.
+From GV Require Import Lib.Str Gen.FactsC07 Model.FlowSend.
 Import ListNotations.
 Open Scope Z_scope.
 #[local] Ltac Zify.zify_post_hook ::= Z.div_mod_to_equations.
@@ -1316,3 +1316,77 @@ Proof.
   - intros i x k Ex H. unfold do_win_stream. rewrite Ex.
     destruct ((k <? 1) || (max_window <? k) || (max_window <? s_win x + k)) eqn:E; auto. exfalso; lia.
 Qed.
+
+(* ------------------------------------------------------------------------------------------ *)
+(** * The control skeleton of the source (Gen/FactsC07.v, regenerated from /repo on every run)
+      is the one the model transcribes *)
+
+Definition expected_send_data : list string :=
+  [ "while-true(";
+      "await:self.connection.write_ready.wait";                     (* Top *)
+      "call:self._h2_connection.local_flow_control_window";         (* CheckWindow ... *)
+      "if:not window > 0(";
+        "call:self.window_updated.clear";
+        "await:self.window_updated.wait";                           (* WaitWindow *)
+        "continue";
+      ")";
+      "read:self._h2_connection.max_outbound_frame_size";
+      "builtin:min/3";                                              (* min(window, max_frame, remaining) *)
+      "if:f_pos == f_last(";
+        "call:self._h2_connection.send_data[end_stream]";
+        "call:self._h2_connection.data_to_send";
+        "call:self._transport.write";
+        "call:self.connection.data_send_process";
+        "break";                                                    (* Done *)
+      "else";
+        "call:self._h2_connection.send_data";
+        "call:self._h2_connection.data_to_send";
+        "call:self._transport.write";
+        "call:self.connection.data_send_process";
+      ")";
+    ")" ]%string.
+
+Definition expected_window_updated : list string :=
+  [ "if:event.stream_id == 0(";
+      "call:self.streams.values";
+      "for:value in self.streams.values()(";
+        "call:value.window_updated.set";
+      ")";
+    "else";
+      "call:self.streams.get";
+      "if:stream is not None(";
+        "call:stream.window_updated.set";
+      ")";
+    ")" ]%string.
+
+Definition expected_settings_changed : list string :=
+  [ "if:SettingCodes.INITIAL_WINDOW_SIZE in event.changed_settings(";
+      "call:self.streams.values";
+      "for:stream in self.streams.values()(";
+        "call:stream.window_updated.set";
+      ")";
+    ")";
+    "if:SettingCodes.MAX_CONCURRENT_STREAMS in event.changed_settings(";
+      "call:self.connection.stream_close_waiter.set";
+    ")" ]%string.
+
+Lemma source_skeleton :
+  sk_send_data = map s2z expected_send_data /\
+  sk_process_window_updated = map s2z expected_window_updated /\
+  sk_process_remote_settings_changed = map s2z expected_settings_changed /\
+  sk_connection_pause_writing = [s2z "call:self.write_ready.clear"] /\
+  sk_connection_resume_writing = [s2z "call:self.write_ready.set"] /\
+  sk_protocol_pause_writing = [s2z "call:self.connection.pause_writing"] /\
+  sk_protocol_resume_writing = [s2z "call:self.connection.resume_writing"].
+Proof. vm_compute. repeat split; reflexivity. Qed.
+
+(* between the read of the window and the h2 send there is no suspension point: in the skeleton no
+   `await:` token occurs after the `if:not window > 0(...)` block within the loop body *)
+Definition is_await (t : list Z) : bool :=
+  match t with 97 :: 119 :: 97 :: 105 :: 116 :: 58 :: _ => true | _ => false end.   (* "await:" *)
+Definition awaits_in (l : list (list Z)) : nat := length (filter is_await l).
+Lemma source_two_suspension_points :
+  awaits_in sk_send_data = 2%nat /\
+  awaits_in (skipn 8 sk_send_data) = 0%nat /\
+  nth_error sk_send_data 2 = Some (s2z "call:self._h2_connection.local_flow_control_window").
+Proof. vm_compute. repeat split; reflexivity. Qed.
